@@ -1012,12 +1012,21 @@ func doInEval(env Env, lhs types.EntityUID, rhs types.Value) (types.Value, error
 		return types.Boolean(entityInOne(env, lhs, rhsv)), nil
 	case types.Set:
 		query := mapset.Make[types.EntityUID](rhsv.Len())
+		// The set is iterated in Go map order.  When several members are not entities, report the error that sorts
+		// first so that the message does not change from one evaluation to the next.
+		var convErr error
 		for rhv := range rhsv.All() {
 			e, err := ValueToEntity(rhv)
 			if err != nil {
-				return zeroValue(), err
+				if convErr == nil || err.Error() < convErr.Error() {
+					convErr = err
+				}
+				continue
 			}
 			query.Add(e)
+		}
+		if convErr != nil {
+			return zeroValue(), convErr
 		}
 		return types.Boolean(entityInSet(env, lhs, query)), nil
 	}
